@@ -89,7 +89,7 @@ struct vin {
 	/* nondet inspection indices */
 	unsigned kf, kn, kd, ku;
 #ifdef STUB_SC
-	struct vsc { struct tun_user t; int ret; int d; } sc[3];
+	struct vsc { struct tun_user t; int ret; int d; } sc[4];
 #endif
 	int qsel;
 	/* second query for two-step cells */
@@ -459,7 +459,9 @@ static int vs_hook(int fd, struct query *q, const char *data, int datalen, char 
 			VASSUME(IN.kd < sizeof(u->outpacket.data));
 			if ((int) IN.kd < d)
 				VASSERT(data[2 + IN.kd] == u->outpacket.data[u->outpacket.offset + IN.kd], "fragment bytes are the packet's bytes at the offset");
+#if MODE == 4
 			VREACH("data fragment sent");
+#endif
 		}
 	}
 #endif
@@ -483,9 +485,13 @@ static int sc_post_ok(const struct tun_user *o, const struct tun_user *n)
 			     n->outpacket.data[IN.kd] == o->outpacket.data[IN.kd]) ||
 			    (n->outpacket.len == 0 && o->outpacket.len > 0)) && n->outpacket.fragment == o->outpacket.fragment &&
 		     n->outpacketq_filled == o->outpacketq_filled && n->outpacketq_nexttouse == o->outpacketq_nexttouse;
-	else
-		ok = ok && n->outpacket.seqno == ((o->outpacket.seqno + 1) & 7) && n->outpacket.fragment == 0 && n->outpacket.offset == 0 &&
-		     n->outpacket.sentlen == 0 && o->outpacket.len > 0 && o->outpacketq_filled > 0 && n->outpacketq_filled == o->outpacketq_filled - 1;
+	else {
+		/* the packet in flight was completed or given up and the next queued one started; this can happen twice in one
+		 * call (give up after too many resends, then the next packet fits one fragment) */
+		int k = (n->outpacket.seqno - o->outpacket.seqno) & 7;
+		ok = ok && (k == 1 || k == 2) && n->outpacket.fragment == 0 && n->outpacket.offset == 0 &&
+		     o->outpacket.len > 0 && o->outpacketq_filled >= k && n->outpacketq_filled == o->outpacketq_filled - k;
+	}
 	return ok;
 }
 #ifdef STUB_SC
@@ -513,13 +519,13 @@ static int send_chunk_or_dataless(int dns_fd, int userid, struct query *q)
 	struct tun_user *u = &users[userid];
 	static struct tun_user old;
 	int c, d = 0, ret = 0;
-	VASSERT(vs_sc_calls < 3, "contract stub: at most three fragment emissions per step");
+	VASSERT(vs_sc_calls < 4, "contract stub: at most four fragment emissions per step");
 	VASSERT(userid >= 0 && userid < NU && (q == &u->q || q == &u->q_sendrealsoon) && q->id != 0,
 		"contract precondition: emission answers a held, unanswered query of that slot");
 	old = *u;
 	/* the havoc values of call k come from IN.sc[k]; k is selected with constant indices (a pointer to
 	 * IN.sc[symbolic] would turn every read into a byte_extract over all of IN) */
-	for (c = 0; c < 3; c++)
+	for (c = 0; c < 4; c++)
 		if (c == vs_sc_calls) { vs_sc_apply(u, &IN.sc[c]); d = IN.sc[c].d; ret = IN.sc[c].ret & 1; }
 	vs_sc_calls++;
 	VASSUME(d >= 0 && d <= old.fragsize);
@@ -543,7 +549,7 @@ static int ans_is(const struct vs_ans *a, const char *s, int n, char enc)
 	return 1;
 }
 
-#ifdef G_ANS
+#if defined(G_ANS) || MODE == 4
 static void vs_assume_distinct_ids(void)
 {
 	unsigned short ids[VS_NSRC]; int valid[VS_NSRC], i, j, k;
@@ -586,7 +592,7 @@ static void setup(void)
 		vs_users[i] = IN.u[i];
 	}
 	users = vs_users;
-#ifdef G_ANS
+#if defined(G_ANS) || MODE == 4
 	vs_assume_distinct_ids();
 #endif
 	usercount = NU;
@@ -769,13 +775,13 @@ void harness(void)
 						VASSERT(pre[i].active && pre[i].authenticated && !pre[i].disabled && pre[i].last_pkt + 60 > IN.now,
 							"forwarded packet goes only to a live logged-in session");
 						VASSERT(pre[i].tun_ip == IN.zdst && vs_unc_calls == 1 && IN.zret == 0, "forwarding target owns the packet's destination address");
-#if ACT_VALID
+#if ACT_VALID && TOCELL >= 0 && TOCELL != UIDCELL
 						VREACH("client-to-client forward");
 #endif
 					}
 #endif
 				}
-#if IS_HEXCMD && ACT_VALID
+#if IS_HEXCMD && ACT_VALID && TOCELL < 0
 				if (vs_tunwrites > 0) VREACH("tun write by authenticated session");
 #endif
 				if (!same_settings(&pre[a], &users[a])) {
@@ -818,9 +824,11 @@ void harness(void)
 					(u->outpacket.offset == p->outpacket.offset + p->outpacket.sentlen && u->outpacket.fragment == p->outpacket.fragment + 1),
 					"same packet: fragment number advances by exactly 1 together with the acked bytes, or not at all");
 			}
+#if !IS_CMD('V')
 			if (u->outpacket.seqno != p->outpacket.seqno)
-				VASSERT(u->outpacket.fragment == 0 && u->outpacket.offset == 0 && u->outpacket.seqno == ((p->outpacket.seqno + 1) & 7),
-					"a new downstream packet starts at fragment 0, offset 0, next seqno");
+				VASSERT(u->outpacket.fragment == 0 && u->outpacket.offset == 0,
+					"a new downstream packet starts at fragment 0, offset 0");
+#endif
 		}
 	}
 #endif
@@ -849,27 +857,33 @@ void harness(void)
 					answered[j] = 1;
 				}
 		}
+#if (IS_CMD('P') || IS_HEXCMD) && ACT_VALID && MODE == 1
 		if (vs_nans >= 2) VREACH("two answers in one step");
-		/* after the step: what is held was received and is unanswered; nothing answered stays held */
+#endif
+		/* after the step: what is held was received and is unanswered; nothing answered stays held.
+		 * (loops over constant source indices: src[symbolic] would be a multi-target pointer) */
 		for (i = 0; i < NU; i++) {
-			const struct query *h[2]; int t;
-			h[0] = &users[i].q; h[1] = &users[i].q_sendrealsoon;
+			int t;
 			for (t = 0; t < 2; t++) {
-				int hit = -1, hit2 = -1;
-				if (h[t]->id == 0) continue;
+				const struct query *h = t ? &users[i].q_sendrealsoon : &users[i].q;
+				int found = 0, found2 = 0;
+				if (h->id == 0) continue;
 				for (j = 0; j < VS_NSRC; j++) {
 					int isdup = (j > 0 && ((j - 1) & 1));
 					unsigned short sid = isdup ? src[j]->id2 : src[j]->id;
-					if (valid[j] && !isdup && h[t]->id == sid) hit = j;
-					if (valid[j] && h[t]->id2 == sid) hit2 = j;
+					if (!valid[j]) continue;
+					if (!isdup && h->id == sid) {
+						found = 1;
+						VASSERT(!answered[j], "an answered query is no longer held (it would be answered twice)");
+						VASSERT(vs_match(h, src[j], 0), "held query is stored unchanged");
+					}
+					if (h->id2 != 0 && h->id2 == sid) {
+						found2 = 1;
+						VASSERT(!answered[j], "a remembered duplicate is not yet answered");
+					}
 				}
-				VASSERT(hit >= 0, "a held query is one that was received");
-				if (hit >= 0) {
-					VASSERT(!answered[hit], "an answered query is no longer held (it would be answered twice)");
-					VASSERT(vs_match(h[t], src[hit], 0), "held query is stored unchanged");
-				}
-				if (h[t]->id2 != 0)
-					VASSERT(hit2 >= 0 && !answered[hit2], "a remembered duplicate was received and is not yet answered");
+				VASSERT(found, "a held query is one that was received");
+				if (h->id2 != 0) VASSERT(found2, "a remembered duplicate was received");
 			}
 			VASSERT(users[i].q.id == 0 || users[i].q_sendrealsoon.id == 0 || users[i].q.id != users[i].q_sendrealsoon.id,
 				"the same query is not held in both slots");
